@@ -515,6 +515,16 @@ async fn receiver_inner(cx: AppCx, ep: EpId, key: FlowKey, plan: FlowPlan, mut r
     let mut chunks_seen = 0u32;
     let mut reads = 0u32;
     cx.op(ep, AppOp::RecvBegin { flow: key });
+    if let ReadMode::RejectAfter { delay_us, code, drop: by_drop } = plan.read {
+        delay(Duration::from_micros(delay_us)).await;
+        if by_drop {
+            drop(r);
+        } else {
+            let _ = r.stop_sending((code as u32).into());
+        }
+        cx.op(ep, AppOp::StopSending { flow: key, at: 0, code });
+        return;
+    }
     loop {
         if let ReadMode::StopSending { at, code } = plan.read {
             if off >= at {
